@@ -11,8 +11,24 @@
       [rank64], [amount64], [binom64] : what the Go code computes in uint64;
     - [nth_comb m i s] : [Some] of the state after [i] successful [next]s from [s],
                          [None] if [next] reported exhaustion on the way.
-    [m + 1 < 2^63] says that maxValue+1 is still an int64 (Go's Value type). *)
-From CSS Require Import Lib.Base Model.Comb Proofs.Comb.
+    [m + 1 < 2^63] says that maxValue+1 is still an int64 (Go's Value type).
+
+    Section 7 is about WHERE the combinations live (Model/CombHeap.v): a state
+    [st] holds the backing arrays, the iterator objects and the combinations
+    handed to the caller; [step o st] / [run ops st] execute calls ([ONew],
+    [ONext i], [OSeek i id], [OGet i] = GetCombination, [OGetUnsafe i], [OCopy i],
+    [OWrite r j v] = the caller writes r[j], [OID], [OAmount]);
+    - [current st i] : the combination iterator [i] stands at,
+    - [result st r]  : what the caller reads in the [r]-th combination he was handed,
+    - [WF st]        : references point into the memory and no two iterator
+                       objects share a backing array (holds after any run from
+                       nothing: [C08_heap_wf]),
+    - [Private st i a] : iterator [i] works on array [a], which no other iterator
+                       uses and no handed-out slice refers to (true for a new
+                       iterator and for a copy: [C08_new_iterator], [C08_copy]),
+    - [addresses o i] : call [o] is Next / SetCombinationID / GetCombinationUnsafe
+                       on iterator [i]. *)
+From CSS Require Import Lib.Base Lib.Cases Model.Comb Proofs.Comb Model.CombHeap Model.CombCases Proofs.CombHeap.
 From Coq Require Import Sorting.Sorted.
 
 (** * Vocabulary *)
@@ -236,7 +252,114 @@ Theorem C08_flip_bytes_involutive : forall s v v',
 Proof. exact flip_bytes_invol. Qed.
 Print Assumptions C08_flip_bytes_involutive.
 
+(** * 7. Returned combinations are values; iterator copies are independent *)
+
+Theorem C08_heap_wf : forall ops st es, run ops hinit = Ok (st, es) -> WF st.
+Proof. exact (fun ops st es H => run_WF ops hinit st es WF_init H). Qed.
+Print Assumptions C08_heap_wf.
+
+Theorem C08_heap_wf_step : forall o st st' e, WF st -> step o st = Ok (st', e) -> WF st'.
+Proof. exact step_WF. Qed.
+Print Assumptions C08_heap_wf_step.
+
+(** GetCombination: the caller gets the current combination in an array of its
+    own; no iterator and no combination handed out earlier changes. *)
+Theorem C08_get_copies : forall st i st1 e, WF st -> step (OGet i) st = Ok (st1, e) ->
+  result st1 (length (h_res st)) = current st i /\
+  results st1 = results st ++ [current st i] /\
+  currents st1 = currents st.
+Proof.
+  intros st i st1 e HW H. destruct (get_spec st i st1 e HW H) as (_ & A & B & _ & _ & C).
+  exact (conj C (conj A B)).
+Qed.
+Print Assumptions C08_get_copies.
+
+(** ... and it keeps that value through ANY later calls (Next, SetCombinationID,
+    GetCombination, Copy, on this or any other iterator, writes to other
+    slices), unless the caller overwrites it himself. *)
+Theorem C08_get_stable : forall st i st1 e ops st2 es,
+  WF st -> step (OGet i) st = Ok (st1, e) -> run ops st1 = Ok (st2, es) ->
+  (forall j v, ~ In (OWrite (length (h_res st)) j v) ops) ->
+  result st2 (length (h_res st)) = current st i.
+Proof.
+  intros st i st1 e ops st2 es HW Hs Hr Hno. exact (proj1 (get_stable st i st1 e ops st2 es HW Hs Hr Hno)).
+Qed.
+Print Assumptions C08_get_stable.
+
+(** Calls made on other iterators (and writes to handed-out combinations) never
+    move an iterator whose array is private. *)
+Theorem C08_iter_frame : forall ops st i a st' es,
+  Private st i a -> run ops st = Ok (st', es) -> (forall o, In o ops -> ~ addresses o i) ->
+  Private st' i a /\ current st' i = current st i.
+Proof. exact iter_frame. Qed.
+Print Assumptions C08_iter_frame.
+
+Theorem C08_new_iterator : forall st k m st1 e, WF st -> step (ONew k m) st = Ok (st1, e) ->
+  Private st1 (length (h_iters st)) (length (h_mem st)) /\
+  current st1 (length (h_iters st)) = first_comb k /\
+  currents st1 = currents st ++ [first_comb k] /\ results st1 = results st.
+Proof. exact new_spec. Qed.
+Print Assumptions C08_new_iterator.
+
+(** Copy(): a new private iterator standing where the source stands; nothing else changes. *)
+Theorem C08_copy : forall st i st1 e, WF st -> step (OCopy i) st = Ok (st1, e) ->
+  Private st1 (length (h_iters st)) (length (h_mem st)) /\
+  current st1 (length (h_iters st)) = current st i /\
+  currents st1 = currents st ++ [current st i] /\ results st1 = results st /\
+  (forall a, Private st i a -> Private st1 i a).
+Proof. exact copy_spec. Qed.
+Print Assumptions C08_copy.
+
+(** The copy stays where it is whatever is done to the source ... *)
+Theorem C08_copy_independent : forall st i st1 e ops st2 es,
+  WF st -> step (OCopy i) st = Ok (st1, e) -> run ops st1 = Ok (st2, es) ->
+  (forall o, In o ops -> ~ addresses o (length (h_iters st))) ->
+  current st2 (length (h_iters st)) = current st i.
+Proof. exact copy_independent. Qed.
+Print Assumptions C08_copy_independent.
+
+(** ... and the source stays where it is whatever is done to the copy.
+    [_partial]: needs the source's array not to have been handed out by
+    GetCombinationUnsafe ([Private]); a slice obtained that way IS the iterator's
+    array by contract (see [C08_ex_unsafe_aliases]). *)
+Theorem C08_copy_source_independent_partial : forall st i a st1 e ops st2 es,
+  WF st -> Private st i a -> step (OCopy i) st = Ok (st1, e) -> run ops st1 = Ok (st2, es) ->
+  (forall o, In o ops -> ~ addresses o i) ->
+  current st2 i = current st i.
+Proof. exact copy_source_independent. Qed.
+Print Assumptions C08_copy_source_independent_partial.
+
+(** The values are those of sections 2-5: Next and SetCombinationID on the
+    slice-level state compute [next] and [seek] of the current combination. *)
+Theorem C08_heap_next : forall st i st1 e, WF st -> step (ONext i) st = Ok (st1, e) ->
+  exists m, option_map it_max (nth_error (h_iters st) i) = Some m /\
+    e = EBool (fst (next m (current st i))) /\ current st1 i = snd (next m (current st i)) /\
+    h_iters st1 = h_iters st /\ h_res st1 = h_res st.
+Proof. exact next_value. Qed.
+Print Assumptions C08_heap_next.
+
+Theorem C08_heap_seek : forall st i id st1 e, WF st -> step (OSeek i id) st = Ok (st1, e) ->
+  exists m, option_map it_max (nth_error (h_iters st) i) = Some m /\
+    seek m (length (current st i)) id = Ok (current st1 i) /\
+    h_iters st1 = h_iters st /\ h_res st1 = h_res st.
+Proof. exact seek_value. Qed.
+Print Assumptions C08_heap_seek.
+
 (** * Examples: the hypotheses above are satisfiable by non-trivial values *)
+
+(** GetCombination keeps [0;1] while the iterator moves on to [0;2]; the slice
+    handed out by GetCombinationUnsafe (first result) is the iterator's own
+    array and moves with it. *)
+Example C08_ex_unsafe_aliases :
+  prog_obs [ONew 2 3; OGetUnsafe 0; OGet 0; ONext 0; OGet 0]
+  = Ok ([ENone; ENone; ENone; EBool true; ENone], [[0; 2]; [0; 1]; [0; 2]], [[0; 2]]).
+Proof. exact ex_get_vs_unsafe. Qed.
+(** a well-formed state with a private iterator, a copy of it, and a kept result *)
+Example C08_ex_heap : exists st es,
+  run [ONew 3 5; ONext 0; OGet 0; OCopy 0; OSeek 1 7; ONext 0] hinit = Ok (st, es) /\
+  WF st /\ result st 0 = [0; 1; 3] /\ current st 0 = [0; 1; 4] /\ current st 1 = [0; 3; 4].
+Proof. exact ex_heap. Qed.
+
 
 Example C08_ex_valid : Valid 4 [0; 2; 4] /\ [0; 2; 4] <> last_comb 4 3.
 Proof. exact ex_valid. Qed.
